@@ -5,3 +5,6 @@
 
 /// The bounded index of recently confirmed transactions (crate-private otherwise).
 pub use crate::tx_index::{Key, TxIndex, Value};
+
+/// Instrumented `Mutex` / `Condvar` the tower is built with when the feature is on.
+pub mod sync;
